@@ -18,9 +18,17 @@ CHECKS["C07"] = {"category": "proof",
   "text": "Every CMsgPackStringReader method is proved against an independent MessagePack reference decoder for a document of symbolic size, symbolic contents and symbolic read position: every legal format width loads the value the specification assigns and consumes exactly the encoding; every truncation raises ParsingException; other families follow the mismatched-types policy. Loop-free once the recursive skipper is replaced by its contract.",
   "note": "SkipValueImpl replaced by contract in the reader proofs; documents up to 2^40 bytes; stream reader and ReadKey dispatch listed in evidence when under contract",
   "technique": _T + "postconditions against an independent reference decoder over a symbolic-size document (R2 direct harness, SAT)"}
+CHECKS["C11"] = {"category": "proof",
+  "text": "The body of every transcoder's main loop (Utf8::Decode to UTF-16/32, Utf8::Encode from UTF-16/32, Utf16::Decode to UTF-32, Utf16::Encode from UTF-32, UTF-16 copy) is outlined mechanically and proved, for an arbitrary iteration (any remaining length, any prior output), to consume exactly a well-formed sequence and append exactly the standard encoding form of its scalar value with no error counted. The lift to whole strings is the fold of the step (stated meta-lemma).",
+  "note": "outer-loop bookkeeping, LE/BE wrappers, Transcode dispatch listed in the evidence when under contract; unit-string model",
+  "technique": _T + "per-character step contracts on mechanically outlined loop bodies against Unicode Table 3-7 (R2, SAT, symbolic-length input window)"}
+CHECKS["C12"] = {"category": "proof",
+  "text": "Same outlined loop bodies, ill-formed half: every ill-formed or truncated sequence is counted once and replaced by exactly one mark (Skip) or fails with InvalidSequence at its start (ThrowError), truncated well-formed prefixes return UnexpectedEnd at the sequence start, nothing ill-formed is propagated, no following well-formed start is swallowed, and all reads stay inside the input (CBMC pointer obligations on a window of exactly the remaining length).",
+  "note": "same as C11",
+  "technique": _T + "per-character step contracts on mechanically outlined loop bodies, error branch (R2, SAT)"}
 _NR = "not reached yet in this round: the check is not built; see DESIGN.md §0 for the planned contracts"
 NOT_APPLICABLE = {
  "C08": "well-formedness and acceptance of JSON/XML text is decided inside RapidJSON and pugixml (third-party code outside /repo); no contract on /repo code can express it without a verified model of those libraries (DESIGN.md §4 C08)",
 }
-for _p in ["C01","C03","C05","C09","C10","C11","C12","C13","C14","C15","C16","C17","C18","C19","C20"]:
+for _p in ["C01","C03","C05","C09","C10","C13","C14","C15","C16","C17","C18","C19","C20"]:
     NOT_APPLICABLE.setdefault(_p, _NR)
